@@ -38,6 +38,9 @@ def plan(tier: str, seed: int) -> Plan:
         conds.append(Condition(f"names:q{qi}", "names", H, "names", {"qi": qi, "namepool": 40 if thorough else 35}, T * 2, required=False,
                                bounds="member name from a pool of 35 (19 single characters of Sigma + 16 curated two-character names), concretised "
                                       "(json.dumps / the lexer are C boundaries): solver-driven enumeration"))
+    for qi in range(5):
+        conds.append(Condition(f"names-async:q{qi}", "names", H, "names", {"qi": qi, "route": "async", "namepool": 40 if thorough else 35}, T * 2, required=False,
+                               bounds="as names:q*, the matches obtained through finditer_async (the async twins build locations separately)"))
     return Plan(
         conditions=conds,
         explanation=(
